@@ -367,15 +367,23 @@ func (c *Conn) Write(p []byte) (int, error) {
 
 //go:norace
 func (c *Conn) Writev(bufs transport.Buffers) (int64, error) {
+	pre := 0
+	preSizes := make([]int, len(bufs))
+	for i, b := range bufs {
+		pre += len(b)
+		preSizes[i] = len(b)
+	}
+	enter := c.log(Ev{Kind: EvWriteEnter, N: pre, Bufs: preSizes})
+	simrt.Yield(SiteWritev)
+	c.waitStall(SiteWritev)
+	// the buffers are read at this instant (a caller that mutates them while the write is in progress gets
+	// whatever is there now, as with a real transport)
 	total := 0
 	sizes := make([]int, len(bufs))
 	for i, b := range bufs {
 		total += len(b)
 		sizes[i] = len(b)
 	}
-	enter := c.log(Ev{Kind: EvWriteEnter, N: total, Bufs: sizes})
-	simrt.Yield(SiteWritev)
-	c.waitStall(SiteWritev)
 	n, err := c.accept(total)
 	off := len(c.Wire)
 	left := n
